@@ -148,3 +148,18 @@ Global Instance truthy_ndZ : Truthy (nd bool) := fun a => match a with A0 b => b
 (* the recorded trajectory of a LaserPath: the five arrays _x, _y, _z, _f, _s *)
 Record lv_cfg (cell : Type) := { lv__x : nd cell; lv__y : nd cell; lv__z : nd cell; lv__f : nd cell; lv__s : nd cell }.
 Arguments lv__x {cell}. Arguments lv__y {cell}. Arguments lv__z {cell}. Arguments lv__f {cell}. Arguments lv__s {cell}.
+
+(* ---- LaserPath.add_path (SrcAp.v): the five arrays as the mutable state, np.all / np.append ---- *)
+Definition nd_all {A} (p : A -> bool) (a : nd A) : bool :=
+  match a with A0 x => p x | A1 l => forallb p l | A2 r => forallb (forallb p) r end.
+Definition nd_flat {A} (a : nd A) : list A := match a with A0 x => [x] | A1 l => l | A2 r => concat r end.
+(* np.append(a, b): both flattened, b after a *)
+Definition nd_append {A} (a b : nd A) : nd A := A1 (nd_flat a ++ nd_flat b).
+
+Record ap_st (cell : Type) := { ap__x : nd cell; ap__y : nd cell; ap__z : nd cell; ap__f : nd cell; ap__s : nd cell }.
+Arguments ap__x {cell}. Arguments ap__y {cell}. Arguments ap__z {cell}. Arguments ap__f {cell}. Arguments ap__s {cell}.
+Definition set_ap__x {cell} (v : nd cell) (s : ap_st cell) : ap_st cell := {| ap__x := v; ap__y := ap__y s; ap__z := ap__z s; ap__f := ap__f s; ap__s := ap__s s |}.
+Definition set_ap__y {cell} (v : nd cell) (s : ap_st cell) : ap_st cell := {| ap__x := ap__x s; ap__y := v; ap__z := ap__z s; ap__f := ap__f s; ap__s := ap__s s |}.
+Definition set_ap__z {cell} (v : nd cell) (s : ap_st cell) : ap_st cell := {| ap__x := ap__x s; ap__y := ap__y s; ap__z := v; ap__f := ap__f s; ap__s := ap__s s |}.
+Definition set_ap__f {cell} (v : nd cell) (s : ap_st cell) : ap_st cell := {| ap__x := ap__x s; ap__y := ap__y s; ap__z := ap__z s; ap__f := v; ap__s := ap__s s |}.
+Definition set_ap__s {cell} (v : nd cell) (s : ap_st cell) : ap_st cell := {| ap__x := ap__x s; ap__y := ap__y s; ap__z := ap__z s; ap__f := ap__f s; ap__s := v |}.
